@@ -16,7 +16,7 @@ RULE = ("one case = one sampler configuration: mode by index mod 4: 0,1 = starte
         "3 = sampled from the model; burn-in/thinning in {0,1,10,200}; 3-4 samples drawn and the run repeated with an equal "
         "sampler to compare. non-trivial = at least one accepted MCMC move was observed and >=2 hyperedges yielded; distinct = "
         "by (mode, parameters, seed)")
-DECIDING = ["C16:sample-valid", "C16:conditioning", "C16:reproducible", "C16:mcmc-step-observed"]
+DECIDING = ["C16:sample-valid", "C16:conditioning", "C16:reproducible"]
 ASSUMPTIONS = ["an exception raised while the sampler builds its initial configuration is counted as 'refused', not as a violation",
                "initial hypergraphs have no size-1 hyperedges (kappa is undefined for them)"]
 logging.disable(logging.CRITICAL)
@@ -47,6 +47,7 @@ def run_case(ctx, rng, idx):
     n_samples = rng.randint(3, 4)
     labels = None
     init_edges = None
+    init_weights = None
     deg_seq = dim_seq = None
     if mode == "initial":
         uni = rng.choice(["small", "gaps", "str", "bigneg"])
@@ -74,6 +75,8 @@ def run_case(ctx, rng, idx):
             return
         init_edges = sorted(es, key=lambda e: sorted(map(repr, e)))
         h0 = hgx.Hypergraph([tuple(e) for e in init_edges], weighted=rng.random() < 0.3, weights=None)
+        # the starting hypergraph itself may be weighted, weight 0 included: conditioning is on its hyperedges
+        init_weights = [rng.choice([0, 1, 2, 0.5]) for _ in init_edges] if rng.random() < 0.3 else None
         for n in labels:
             if rng.random() < 0.3:
                 h0.add_node(n)
@@ -114,40 +117,54 @@ def run_case(ctx, rng, idx):
                 deg_seq = None
     rescale = mode in ("sequences", "deg-only", "dim-only") and rng.random() < 0.3
     warm = mode == "sequences" and not rescale and rng.random() < 0.35
+    interleave = mode == "initial" and rng.random() < 0.25
     u, w = gen_params(rng, N)
     max_size = rng.choice([None, rng.randint(max(2, max((len(e) for e in (init_edges or [])), default=2), max(dim_seq or {2: 0})), N)])
 
     def wit(extra=None):
         return {"mode": mode, "N": N, "u": u.tolist() if N <= 12 else None, "w": w.tolist(), "max_hye_size": max_size, "burn_in": burn, "thinning": thin, "seed": seed,
                 "initial": None if init_edges is None else [sorted(e, key=repr) for e in init_edges] if len(init_edges) <= 30 else len(init_edges),
-                "deg_seq": None if deg_seq is None else deg_seq.tolist(), "dim_seq": dim_seq, "allow_rescaling": rescale, "exact_dyadic_sampling": exact_dyadic, "sampler_used_before_for_another_pair": warm, "extra": repr(extra)[:900]}
+                "deg_seq": None if deg_seq is None else deg_seq.tolist(), "dim_seq": dim_seq, "allow_rescaling": rescale, "exact_dyadic_sampling": exact_dyadic, "sampler_used_before_for_another_pair": warm, "second_generator_interleaved": interleave, "extra": repr(extra)[:900]}
 
     # ---- chain monitor ------------------------------------------------------------------------
     chain = {"steps": 0, "accepted": 0, "bad": None, "ref": None}
-    orig_step = hs.HyMMSBMSampler._mcmc_step
+    orig_step = getattr(hs.HyMMSBMSampler, "_mcmc_step", None)  # private: observed when present, never required
 
-    def step_wrapped(self, hye_list):
-        if chain["ref"] is None:
-            chain["ref"] = (Counter(map(len, hye_list)), Counter(n for e in hye_list for n in e))
-        before = [frozenset(e) for e in hye_list]
-        r = orig_step(self, hye_list)
+    def step_wrapped(self, *a, **k):
+        hye_list = a[0] if a and isinstance(a[0], list) else k.get("hye_list")
+        before = None
+        try:
+            if isinstance(hye_list, list):
+                if chain["ref"] is None:
+                    chain["ref"] = (Counter(map(len, hye_list)), Counter(n for e in hye_list for n in e))
+                before = [frozenset(e) for e in hye_list]
+        except Exception:
+            before = None
+        r = orig_step(self, *a, **k)
         chain["steps"] += 1
-        if [frozenset(e) for e in hye_list] != before:
-            chain["accepted"] += 1
-        if chain["bad"] is None:
-            if any(not isinstance(e, set) or any(not (0 <= int(n) < self._model.N) for n in e) for e in hye_list):
-                chain["bad"] = "hyperedge-not-a-set-of-node-indices"
-            elif Counter(map(len, hye_list)) != chain["ref"][0]:
-                chain["bad"] = "size-multiset-changed"
-            elif Counter(n for e in hye_list for n in e) != chain["ref"][1]:
-                chain["bad"] = "degree-vector-changed"
+        try:
+            if before is not None:
+                if [frozenset(e) for e in hye_list] != before:
+                    chain["accepted"] += 1
+                if chain["bad"] is None:
+                    if any(not isinstance(e, set) or any(not (0 <= int(n) < self._model.N) for n in e) for e in hye_list):
+                        chain["bad"] = "hyperedge-not-a-set-of-node-indices"
+                    elif Counter(map(len, hye_list)) != chain["ref"][0]:
+                        chain["bad"] = "size-multiset-changed"
+                    elif Counter(n for e in hye_list for n in e) != chain["ref"][1]:
+                        chain["bad"] = "degree-vector-changed"
+        except Exception as e:  # the monitor must not change what the sampler does
+            chain["bad"] = chain["bad"] or ("monitor-error:" + type(e).__name__)
         return r
 
     def draw():
         s = hs.HyMMSBMSampler(u=u.copy(), w=w.copy(), max_hye_size=max_size, burn_in_steps=burn, intermediate_steps=thin, seed=seed,
                               **({} if exact_dyadic else {"exact_dyadic_sampling": False}))
         if mode == "initial":
-            hh = hgx.Hypergraph([tuple(e) for e in init_edges])
+            if init_weights is not None:
+                hh = hgx.Hypergraph([tuple(e) for e in init_edges], weighted=True, weights=list(init_weights))
+            else:
+                hh = hgx.Hypergraph([tuple(e) for e in init_edges])
             for n in node_labels:
                 hh.add_node(n)
             it = s.sample(initial_hyg=hh)
@@ -168,27 +185,48 @@ def run_case(ctx, rng, idx):
         else:
             it = s.sample()
         out = []
+        it2 = None
+        if interleave and mode == "initial" and len(node_labels) >= 4:
+            # a second generator of the SAME sampler, started from another hypergraph and advanced in turns with the first:
+            # each generated sequence is conditioned on its own starting point
+            other = hgx.Hypergraph([tuple(node_labels[:2]), tuple(node_labels[1:4])])
+            for n in node_labels:
+                other.add_node(n)
+            it2 = s.sample(initial_hyg=other)
         for _ in range(n_samples):
             out.append(next(it))
+            if it2 is not None:
+                next(it2)
         return s, out
 
-    orig_routine = hs.HyMMSBMSampler._mcmc_routine
+    orig_routine = getattr(hs.HyMMSBMSampler, "_mcmc_routine", None)
     yielded = []
 
-    def routine_wrapped(self, hye_list, fixed_hyperedges=None):
-        for lst in orig_routine(self, hye_list, fixed_hyperedges=fixed_hyperedges):
-            fs = [frozenset(e) for e in lst]
-            yielded.append({"n": len(fs), "coincided": len(set(fs)) != len(fs)})
+    def routine_wrapped(self, *a, **k):
+        for lst in orig_routine(self, *a, **k):
+            try:
+                fs = [frozenset(e) for e in lst]
+                yielded.append({"n": len(fs), "coincided": len(set(fs)) != len(fs)})
+            except Exception:
+                yielded.append({"n": -1, "coincided": True})  # unreadable: nothing is concluded from it
             yield lst
 
-    hs.HyMMSBMSampler._mcmc_routine = routine_wrapped
-    hs.HyMMSBMSampler._mcmc_step = step_wrapped
+    if orig_routine is not None:
+        hs.HyMMSBMSampler._mcmc_routine = routine_wrapped
+    else:
+        ctx.note("probe-unavailable:_mcmc_routine")
+    if orig_step is not None:
+        hs.HyMMSBMSampler._mcmc_step = step_wrapped
+    else:
+        ctx.note("probe-unavailable:_mcmc_step")
     try:
         with np.errstate(all="ignore"):
             r = call(draw)
     finally:
-        hs.HyMMSBMSampler._mcmc_step = orig_step
-        hs.HyMMSBMSampler._mcmc_routine = orig_routine
+        if orig_step is not None:
+            hs.HyMMSBMSampler._mcmc_step = orig_step
+        if orig_routine is not None:
+            hs.HyMMSBMSampler._mcmc_routine = orig_routine
     yielded_first = list(yielded)
     if isinstance(r, _Raised):
         # which phase raised?  building the initial configuration (refused) vs the chain / output
@@ -200,7 +238,10 @@ def run_case(ctx, rng, idx):
         return
     sampler, samples = r
     expected_steps = burn + thin * n_samples
-    ctx.check("C16:mcmc-step-observed", chain["steps"] == expected_steps, "C16:probe:mcmc-step-count", lambda: wit((chain["steps"], expected_steps)))
+    if chain["steps"] == expected_steps:
+        ctx.tick("C16:mcmc-step-observed")
+    else:  # the number of calls of a private method is not part of the property: recorded, not judged
+        ctx.note("probe:mcmc-step-count-differs-from-burn_in+thinning*samples")
     ctx.event("mcmc-steps", chain["steps"])
     ctx.event("mcmc-accepted", chain["accepted"])
     if chain["bad"]:
@@ -241,7 +282,9 @@ def run_case(ctx, rng, idx):
             ctx.check("C16:conditioning", all(size[s] <= cond_size.get(s, 0) for s in size), f"C16:{mode}:size-count-exceeds-conditioned", lambda: w2((dict(size), dict(cond_size))))
         if cond_deg is not None:
             ctx.check("C16:conditioning", all(deg[n] <= cond_deg.get(n, 0) for n in deg), f"C16:{mode}:degree-exceeds-conditioned", lambda: w2((dict(deg), dict(cond_deg))))
-        no_coincidence = j < len(yielded_first) and not yielded_first[j]["coincided"]
+        no_coincidence = (not interleave) and j < len(yielded_first) and not yielded_first[j]["coincided"]
+        if interleave and cond_size is not None and all(c == 1 for c in cond_size.values()):
+            no_coincidence = True  # all conditioned sizes are different: two sampled hyperedges cannot coincide
         if cond_size is not None and no_coincidence and mode == "initial":
             # the chain's own output had no two equal hyperedges: nothing may be missing from the sample
             ctx.check("C16:conditioning", len(E) == sum(cond_size.values()), f"C16:{mode}:no-two-hyperedges-coincided-but-some-are-missing",
